@@ -123,6 +123,49 @@ CHECKS["C04"] = dict(
     note=PROG_NOTE,
     technique="TLA+ guarantee module (Fifo.tla) + TLC program enumeration; programs executed on real code; TLC trace validation")
 
+LIFE_NOTE = ("Trusted: TLC, hooks (incl. gate hooks placed before lock acquisitions / blocking operations), driver. Liveness "
+             "is read as safety over quiescent states (model: no library step enabled; real runs: no library event for "
+             "1.5 s with all gorums timers far below or far beyond that period); quiescence-based rejections are re-run "
+             "twice before being reported. Bounded: 2-3 requests, 2-3 stream epochs, one crash, one Close.")
+LIFE_TECH = ("TLA+ process-level spec (Channel.tla) + TLC exhaustive on quiescent invariants; TLC counterexample interleavings "
+             "replayed on real code with gates/faults; TLC trace validation (LifeTrace.tla, RoutingTrace.tla)")
+CHECKS["C08"] = dict(
+    engine="life", category="model_checking",
+    text="Channel.tla models callers, send queue, sender, receiver, watcher, reconnect (RW lock with writer preference, "
+         "stale flag reads), router table, network per stream epoch, server loop, crash/restart, Close. CtxPrompt (in every "
+         "state where the client library has no enabled step, each call whose context ended has returned - the server is "
+         "environment, incl. a peer that never reads: Window=0) is checked exhaustively for 2 requests of kinds two-way / "
+         "one-way with and without send-waiting, send buffer 0/1. Scenarios ctx-while-queued/-buffered/-written/-awaiting x 9 "
+         "call kinds hold the sender at a gate (= blocked SendMsg), end the context, and require the call to have returned "
+         "at quiescence; free workloads cancel at arbitrary instants.",
+    ref="DESIGN.md 5 C08, 3.2", note=LIFE_NOTE, technique=LIFE_TECH)
+CHECKS["C09"] = dict(
+    engine="life", category="model_checking",
+    text="NoStrandedCall (settled state with server up and node not closed => no call outstanding) and NoLockWedge checked "
+         "exhaustively on Channel.tla incl. streaming requests with bounded reply channels and early completion; TLC's "
+         "19-state counterexample of the lock wedge (found with the pre-fix deviations) is replayed with gates on the real "
+         "library for 9 call kinds, as are stream-outruns-call and ctx-while-written, each followed by a probe RPC that must "
+         "be answered; free workloads (mixed calls, cancellations at arbitrary instants, late replies) must end clean "
+         "(every invocation returns, router tables empty).",
+    ref="DESIGN.md 5 C09, 3.2", note=LIFE_NOTE, technique=LIFE_TECH)
+CHECKS["C10"] = dict(
+    engine="life", category="model_checking",
+    text="In Channel.tla the receiver's back-off timer is an ENVIRONMENT action, so NoStrandedCall says a reply on a "
+         "re-created stream is received without the timer firing; checked exhaustively with one crash/restart at every "
+         "point. Scenarios restart (back-off base 20 s, gRPC's own redial fired explicitly) and down-at-creation x 9 call "
+         "kinds require the probe call issued after the node is back to be answered before quiescence. (Metadata per "
+         "connection is covered by the repository's own tests and not re-checked here.)",
+    ref="DESIGN.md 5 C10, 3.2", note=LIFE_NOTE, technique=LIFE_TECH)
+CHECKS["C12"] = dict(
+    engine="life", category="model_checking",
+    text="CloseTerminates (client-settled and closed => sender exited, receiver exited or never started, no watcher armed, "
+         "every caller returned) checked exhaustively on Channel.tla with Close placed at every state, send buffer 0/1, "
+         "two-way/one-way/streaming requests, a request issued after Close. Scenarios close-while-awaiting, close-buffered "
+         "(send buffer 4, six calls after Close), close-at-loop-end (gate between routing and the loop-end check), "
+         "close-noconnect x 9 call kinds: after Close returned every call is served, post-Close two-way calls failed, no "
+         "library goroutine is left, nothing panicked; each scenario runs in its own process.",
+    ref="DESIGN.md 5 C12, 3.2", note=LIFE_NOTE, technique=LIFE_TECH)
+
 PENDING = {
     "C03": "check under construction (Fifo layer, DESIGN.md 11 step 3)",
     "C04": "check under construction (Fifo layer, DESIGN.md 11 step 3)",
@@ -165,6 +208,9 @@ def main():
              "kind_free_text": "TLC on specs/Codec.tla (CodecGen lattice, CodecTrace validation) + drive codec"},
             {"name": "prog", "path": "tools/check_prog.py", "serves_properties": ["C03", "C04"],
              "kind_free_text": "TLC on specs/Fifo.tla (FifoGen program enumeration, FifoTrace validation) + drive prog"},
+            {"name": "life", "path": "tools/check_life.py", "serves_properties": ["C08", "C09", "C10", "C12"],
+             "kind_free_text": "TLC on specs/Channel.tla (ChannelMC configs) + drive life (gated scenarios, one process each) "
+                               "+ drive m3 (free workloads) + TLC trace validation with LifeTrace.tla / RoutingTrace.tla"},
             {"name": "calls", "path": "tools/check_calls.py",
              "serves_properties": ["C01", "C02", "C06", "C11"],
              "kind_free_text": "TLC on specs/Calls.tla (CallsMC exhaustive, CallsGen behaviour generator, CallsTrace trace "
